@@ -7,8 +7,11 @@
    fetched on the caller's task, worker spawned); [run s0 ls] executes an arbitrary schedule
    [ls] of worker steps, consumer polls and a consumer drop.  [good_script]: every page is a
    Rows response whose faults are all retried with the plan lasting, exactly the last page
-   says "no more pages".  [fail_point = Some (k, e)]: pages < k are like that, the fetch of
-   page k ends in a non-retried failure e.  All statements hold for every script (any number
+   says "no more pages".  [expected true m n true script] is THE PROPERTY as the stream a
+   full read must deliver, for every way a page request can end (plans_ok: every plan enumerates
+   the same n nodes); [fail_point .. = Some (k, e)]: pages < k return rows and announce more,
+   the request of page k ends without rows with error e (DontRetry, client timeout, plan
+   exhausted, empty plan, no connection, non-Rows response, IgnoreWriteError).  All statements hold for every script (any number
    of pages, rows, faults) and every schedule. *)
 From SV Require Import Base.Prelude Model.Pager Proofs.Pager_proofs.
 Open Scope N_scope.
@@ -46,16 +49,60 @@ Theorem C07_good_script_answers : forall m script s0, good_script m script = tru
   pager_init m script = Some s0 -> pdone m (s_prod s0) = true.
 Proof. exact good_pdone. Qed.
 
-(* a non-retried failure on page k: exactly the rows of pages < k, then the error, then the
-   end; for k = 0 the constructor itself returns the error *)
-Theorem C07_error_after_prefix : forall m script k e, fail_point m script = Some (k, e) ->
-  match k with
-  | O => exists rq0, start m script = (rq0, SFail e)
-  | S _ => exists s0, pager_init m script = Some s0 /\
-           forall ls s, run s0 ls = Some s -> s_cons s = CEnded ->
-             s_out s = spec_error_stream (script_pages script) k e
-  end.
+(* THE PROPERTY for every script whose plans enumerate the same nodes, outside the known-finding
+   class O1: a complete read delivers exactly the expected stream -- rows of the pages up to the
+   first one without a next state, each once, in order, then the end; or, when a page request
+   ends without rows in ANY way, the rows of the earlier pages, the error, the end (for the first
+   page: the constructor returns the error) -- and at every moment of every schedule (consumer
+   drop included) what has been delivered is a prefix of it *)
+Theorem C07_stream : forall m nodes script its, plans_ok nodes script = true ->
+  known_ignored m (List.length nodes) script = false ->
+  expected true m (List.length nodes) true script = Some its ->
+  (forall rq0 e, start m script = (rq0, SFail e) -> its = [IErr e; IEnd]) /\
+  (forall s0 ls s, pager_init m script = Some s0 -> run s0 ls = Some s ->
+     (s_cons s = CEnded -> s_out s = its) /\ exists r, s_out s ++ r = its).
+Proof. exact stream_thm. Qed.
+
+(* "a non-retried failure surfaces as an error after all rows of earlier pages": every way the
+   request of page k can end without rows; k = 0 is the only case in which the constructor fails *)
+Theorem C07_error_after_prefix : forall m nodes script k e, plans_ok nodes script = true ->
+  known_ignored m (List.length nodes) script = false ->
+  fail_point m (List.length nodes) true script = Some (k, e) ->
+  (forall rq0 e', start m script = (rq0, SFail e') -> k = 0%nat /\ e' = e) /\
+  (forall s0 ls s, pager_init m script = Some s0 -> run s0 ls = Some s ->
+     (s_cons s = CEnded -> s_out s = spec_error_stream (script_pages script) k e) /\
+     exists r, s_out s ++ r = spec_error_stream (script_pages script) k e).
 Proof. exact error_thm. Qed.
+
+Theorem C07_fail_point_is_expected : forall m n script first k e,
+  fail_point m n first script = Some (k, e) ->
+  expected true m n first script = Some (spec_error_stream (script_pages script) k e).
+Proof. exact fail_point_expected. Qed.
+
+(* the two classifications agree: a good script is one whose expected stream is all rows *)
+Theorem C07_good_is_expected : forall m nodes script, plans_ok nodes script = true ->
+  good_script m script = true ->
+  expected false m (List.length nodes) true script = Some (spec_stream (script_pages script)) /\
+  known_ignored m (List.length nodes) script = false.
+Proof. exact good_is_expected. Qed.
+
+(* REFUTED for the class O1 (finding "ignore-write-error-silent-end"): when the retry session
+   answers IgnoreWriteError to a failed page request, the code stops fetching and the stream ends
+   WITHOUT the error the property demands *)
+Theorem C07_ignore_refuted : exists m nodes script its s0 ls s,
+  plans_ok nodes script = true /\
+  expected true m (List.length nodes) true script = Some its /\
+  pager_init m script = Some s0 /\ run s0 ls = Some s /\ s_cons s = CEnded /\ s_out s <> its.
+Proof. exact ignore_refuted. Qed.
+
+(* what the code does on that class, for every script and schedule: the non-strict stream *)
+Theorem C07_ignored_write_error_ends_silently : forall m nodes script its,
+  plans_ok nodes script = true -> known_ignored m (List.length nodes) script = true ->
+  expected false m (List.length nodes) true script = Some its ->
+  (forall s0 ls s, pager_init m script = Some s0 -> run s0 ls = Some s -> s_cons s = CEnded ->
+     s_out s = its) /\
+  expected true m (List.length nodes) true script <> Some its.
+Proof. exact ignored_thm. Qed.
 
 (* for EVERY script (any faults, any responses) and every schedule: each request ever sent
    carries the paging state returned with the previous page, the first page's requests carry
@@ -102,13 +149,13 @@ Proof. exact sched_full. Qed.
 
 (* acceptors of the correspondence check: accepted => the property holds for that trace;
    every complete schedule of the model is accepted *)
-Theorem C07_accept_full_sound : forall m script oi ok, accept_full m script oi ok = true ->
+Theorem C07_accept_full_sound : forall m nodes script oi ok, accept_full m script oi ok = true ->
+  (plans_ok nodes script = true -> known_ignored m (List.length nodes) script = false ->
+     prop_full_ok m (List.length nodes) script oi ok = true) /\
   (good_script m script = true ->
      oi = spec_stream (script_pages script) /\ ok = spec_requests m script) /\
-  (forall k e, fail_point m script = Some (k, e) ->
-     oi = spec_error_stream (script_pages script) k e) /\
   (forall i st, In (i, st) ok -> st = spec_state (script_pages script) i).
-Proof. exact accept_full_property. Qed.
+Proof. exact accept_full_thm. Qed.
 
 Theorem C07_accept_full_complete : forall m script,
   (forall s0 ls s, pager_init m script = Some s0 -> run s0 ls = Some s -> s_cons s = CEnded ->
@@ -117,13 +164,12 @@ Theorem C07_accept_full_complete : forall m script,
      accept_full m script [IErr e; IEnd] (map req_key rq0) = true).
 Proof. exact accept_full_complete_thm. Qed.
 
-Theorem C07_accept_drop_sound : forall m script n oi ok,
-  accept_drop m script n oi ok = true ->
-  (forall i st, In (i, st) ok -> st = spec_state (script_pages script) i) /\
-  (good_script m script = true ->
-     (exists r, oi ++ r = spec_stream (script_pages script)) /\
-     (exists r, ok ++ r = spec_requests m script)).
-Proof. exact accept_drop_thm. Qed.
+Theorem C07_accept_drop_sound : forall m nodes script cnt oi ok,
+  accept_drop m script cnt oi ok = true ->
+  plans_ok nodes script = true -> known_ignored m (List.length nodes) script = false ->
+  (exists rq0 rows p, start m script = (rq0, SPager rows p)) ->
+  prop_drop_ok m (List.length nodes) script cnt oi ok = true.
+Proof. exact accept_drop_prop. Qed.
 
 (* ... and complete for every "lazy consumer" schedule: the caller has just been handed an
    item (or has not polled at all), the worker runs for any while, the caller drops the
@@ -138,17 +184,6 @@ Theorem C07_accept_drop_complete : forall m script s0 lsa sa sb lp s1 ls2 s2,
   run s1 (LDrop :: ls2) = Some s2 ->
   accept_drop m script (List.length (s_out s2)) (s_out s2) (map req_key (s_reqs s2)) = true.
 Proof. exact accept_drop_complete. Qed.
-
-(* what the code does when the retry policy answers IgnoreWriteError to a failed page fetch
-   (pages < k read, page k ignored): it stops fetching and the stream ends WITHOUT an error.
-   Recorded as observation O1 in docs/C07.md: this is the one kind of non-retried failure that
-   does not surface. *)
-Theorem C07_ignored_write_error_ends_silently : forall m script k,
-  ignore_point m script = Some k ->
-  exists s0, pager_init m script = Some s0 /\
-  forall ls s, run s0 ls = Some s -> s_cons s = CEnded ->
-    s_out s = spec_truncated_stream (script_pages script) k.
-Proof. exact ignored_thm. Qed.
 
 (* ---- non-vacuity: concrete scripts and schedules ---------------------------------------- *)
 Definition ex_script : list pscript :=
@@ -183,10 +218,53 @@ Definition ex_fail_script : list pscript :=
     mk_ps [0; 1] [FErr 4097 DNext; FErr 8704 DDont] (RRows [3] None) ].
 
 Example C07_ex_fail :
-  fail_point MSession ex_fail_script = Some (1%nat, 8704) /\
+  fail_point MSession 2 true ex_fail_script = Some (1%nat, 8704) /\
+  expected true MSession 2 true ex_fail_script = Some [IRow 1; IRow 2; IErr 8704; IEnd] /\
   snd (seq_run MSession ex_fail_script) = OStream [IRow 1; IRow 2; IErr 8704; IEnd] /\
-  fail_point MConn ex_fail_script = Some (1%nat, 4097) /\
-  fail_point MSession [mk_ps [0] [FTimeout] RVoid] = Some (0%nat, e_timeout).
+  fail_point MConn 2 true ex_fail_script = Some (1%nat, 4097) /\
+  fail_point MSession 1 true [mk_ps [0] [FTimeout] RVoid] = Some (0%nat, e_timeout) /\
+  known_ignored MSession 2 ex_fail_script = false /\ plans_ok [0; 1] ex_fail_script = true.
+Proof. repeat split; vm_compute; reflexivity. Qed.
+
+(* every other way a page request ends without rows is in the failure class too, and the
+   specification agrees with the model on each (the cases the first audit found uncovered) *)
+Definition pg12 := mk_ps [0] [] (RRows [1; 2] (Some [170])).
+Example C07_ex_fail_classes :
+  (* plan exhausted after RetryNextTarget: the last error *)
+  fail_point MSession 1 true [pg12; mk_ps [0] [FErr 5 DNext] (RRows [3] None)] = Some (1%nat, 5) /\
+  snd (seq_run MSession [pg12; mk_ps [0] [FErr 5 DNext] (RRows [3] None)])
+    = OStream [IRow 1; IRow 2; IErr 5; IEnd] /\
+  (* empty plan *)
+  fail_point MSession 0 true [mk_ps [] [] (RRows [1] None)] = Some (0%nat, e_empty_plan) /\
+  snd (seq_run MSession [mk_ps [] [] (RRows [1] None)]) = OFail e_empty_plan /\
+  (* no connection to any target *)
+  fail_point MSession 1 true [mk_ps [0] [FConnFail] (RRows [1] None)] = Some (0%nat, e_pool) /\
+  snd (seq_run MSession [mk_ps [0] [FConnFail] (RRows [1] None)]) = OFail e_pool /\
+  (* a later page that is not Rows *)
+  fail_point MSession 1 true [pg12; mk_ps [0] [] RVoid] = Some (1%nat, e_unexpected) /\
+  snd (seq_run MSession [pg12; mk_ps [0] [] RVoid]) = OStream [IRow 1; IRow 2; IErr e_unexpected; IEnd] /\
+  (* a Void FIRST page is an empty result for a Session pager, an error for the connection pager *)
+  fail_point MSession 1 true [mk_ps [0] [] RVoid] = None /\
+  expected true MSession 1 true [mk_ps [0] [] RVoid] = Some [IEnd] /\
+  fail_point MConn 1 true [mk_ps [0] [] RVoid] = Some (0%nat, e_unexpected) /\
+  (* "no more pages" before the script ends: the rest of the script is not read *)
+  expected true MSession 1 true [mk_ps [0] [] (RRows [1] None); mk_ps [0] [] (RRows [2] None)]
+    = Some [IRow 1; IEnd] /\
+  (* more pages announced, none served: no claim *)
+  expected true MSession 1 true [pg12] = None /\
+  (* a transparent re-prepare re-sends the same state and changes nothing else *)
+  expected true MSession 1 true [pg12; mk_ps [0] [FUnprep] (RRows [3] None)]
+    = Some [IRow 1; IRow 2; IRow 3; IEnd] /\
+  map req_key (fst (seq_run MSession [pg12; mk_ps [0] [FUnprep] (RRows [3] None)]))
+    = [(0%nat, None); (1%nat, Some [170]); (1%nat, Some [170])].
+Proof. repeat split; vm_compute; reflexivity. Qed.
+
+(* plans_ok rejects plans that are not enumerations of the node set *)
+Example C07_ex_plans :
+  plans_ok [0; 1; 2] ex_script = true /\
+  plans_ok [0; 1] ex_script = false /\
+  plans_ok [0; 1; 2] [mk_ps [0; 0; 1] [] RVoid] = false /\
+  plans_ok [0; 1; 2] [mk_ps [0; 1; 3] [] RVoid] = false.
 Proof. repeat split; vm_compute; reflexivity. Qed.
 
 Example C07_ex_drop :
@@ -207,21 +285,75 @@ Example C07_ex_accept :
     [(0%nat, None); (0%nat, None); (1%nat, None)] = false.
 Proof. repeat split; vm_compute; reflexivity. Qed.
 
+(* O1: the known-finding class, the strict and the non-strict stream, and what the model does *)
 Example C07_ex_ignore :
-  ignore_point MSession
-    [ mk_ps [0; 1] [] (RRows [1; 2] (Some [7]));
-      mk_ps [0; 1] [FErr 4097 DSame; FErr 4352 DIgnore] (RRows [3] None) ] = Some 1%nat /\
-  snd (seq_run MSession
-    [ mk_ps [0; 1] [] (RRows [1; 2] (Some [7]));
-      mk_ps [0; 1] [FErr 4097 DSame; FErr 4352 DIgnore] (RRows [3] None) ])
-  = OStream [IRow 1; IRow 2; IEnd].
-Proof. split; vm_compute; reflexivity. Qed.
+  known_ignored MSession 2 refute_script = true /\
+  known_ignored MSession 2 ex_fail_script = false /\
+  known_ignored MSession 3 ex_script = false /\
+  known_ignored MConn 2 refute_script = false /\
+  expected true MSession 2 true refute_script = Some [IRow 1; IRow 2; IErr 4352; IEnd] /\
+  expected false MSession 2 true refute_script = Some [IRow 1; IRow 2; IEnd] /\
+  snd (seq_run MSession refute_script) = OStream [IRow 1; IRow 2; IEnd] /\
+  fail_point MSession 2 true refute_script = Some (1%nat, 4352).
+Proof. repeat split; vm_compute; reflexivity. Qed.
+
+(* the property predicates the driver evaluates, on accepting AND rejecting observations *)
+Definition ex_keys : list (nat * option (list N)) :=
+  [(0%nat, None); (0%nat, None); (1%nat, Some [170]); (1%nat, Some [170]); (2%nat, Some [])].
+Example C07_ex_prop :
+  prop_full_ok MSession 3 ex_script [IRow 1; IRow 2; IRow 3; IEnd] ex_keys = true /\
+  (* one request more or less per page is not the property's business *)
+  prop_full_ok MSession 3 ex_script [IRow 1; IRow 2; IRow 3; IEnd]
+    [(0%nat, None); (1%nat, Some [170]); (2%nat, Some [])] = true /\
+  (* lost / duplicated / reordered row, missing end, wrong state, state on the first request *)
+  prop_full_ok MSession 3 ex_script [IRow 1; IRow 3; IEnd] ex_keys = false /\
+  prop_full_ok MSession 3 ex_script [IRow 1; IRow 2; IRow 2; IRow 3; IEnd] ex_keys = false /\
+  prop_full_ok MSession 3 ex_script [IRow 2; IRow 1; IRow 3; IEnd] ex_keys = false /\
+  prop_full_ok MSession 3 ex_script [IRow 1; IRow 2; IRow 3] ex_keys = false /\
+  prop_full_ok MSession 3 ex_script [IRow 1; IRow 2; IRow 3; IEnd]
+    [(0%nat, None); (1%nat, Some [171])] = false /\
+  prop_full_ok MSession 3 ex_script [IRow 1; IRow 2; IRow 3; IEnd] [(0%nat, Some [170])] = false /\
+  prop_full_ok MSession 3 ex_script [IRow 1; IRow 2; IRow 3; IEnd] [(2%nat, Some [170])] = false /\
+  (* failing scripts: swallowed error, lost row before the error, wrong state *)
+  prop_full_ok MSession 2 ex_fail_script [IRow 1; IRow 2; IErr 8704; IEnd] [(0%nat, None); (1%nat, Some [7])] = true /\
+  prop_full_ok MSession 2 ex_fail_script [IRow 1; IRow 2; IEnd] [(0%nat, None); (1%nat, Some [7])] = false /\
+  prop_full_ok MSession 2 ex_fail_script [IRow 1; IErr 8704; IEnd] [(0%nat, None); (1%nat, Some [7])] = false /\
+  prop_full_ok MSession 2 ex_fail_script [IRow 1; IRow 2; IErr 8704; IEnd] [(0%nat, None); (1%nat, Some [8])] = false /\
+  (* O1: the silent end the code produces is NOT accepted by the property *)
+  prop_full_ok MSession 2 refute_script [IRow 1; IRow 2; IEnd] [(0%nat, None); (1%nat, Some [7])] = false /\
+  (* early drop: exactly the first n items *)
+  prop_drop_ok MSession 3 ex_script 2 [IRow 1; IRow 2] [(0%nat, None)] = true /\
+  prop_drop_ok MSession 3 ex_script 2 [IRow 1] [(0%nat, None)] = false /\
+  prop_drop_ok MSession 3 ex_script 2 [] [(0%nat, None)] = false /\
+  prop_drop_ok MSession 3 ex_script 2 [IRow 2; IRow 1] [(0%nat, None)] = false /\
+  prop_drop_ok MSession 2 ex_fail_script 3 [IRow 1; IRow 2; IErr 8704] [(0%nat, None); (1%nat, Some [7])] = true /\
+  prop_drop_ok MSession 2 ex_fail_script 3 [IRow 1; IRow 2; IEnd] [(0%nat, None); (1%nat, Some [7])] = false /\
+  prop_drop_ok MSession 2 ex_fail_script 1 [IRow 1] [(0%nat, None); (1%nat, Some [9])] = false.
+Proof. repeat split; vm_compute; reflexivity. Qed.
+
+(* the specification functions themselves *)
+Example C07_ex_spec :
+  spec_stream [([1; 2], Some [7]); ([], Some []); ([3], None); ([4], None)] = [IRow 1; IRow 2; IRow 3; IEnd] /\
+  spec_error_stream [([1; 2], Some [7]); ([], Some []); ([3], None)] 2 9 = [IRow 1; IRow 2; IErr 9; IEnd] /\
+  spec_state [([1; 2], Some [7]); ([], Some []); ([3], None)] 0 = None /\
+  spec_state [([1; 2], Some [7]); ([], Some []); ([3], None)] 1 = Some [7] /\
+  spec_state [([1; 2], Some [7]); ([], Some []); ([3], None)] 2 = Some [] /\
+  spec_state [([1; 2], Some [7]); ([], Some []); ([3], None)] 3 = None /\
+  good_script MSession ex_fail_script = false /\
+  good_script MSession [mk_ps [0] [] (RRows [1] (Some [1]))] = false /\
+  good_script MSession [mk_ps [0] [] (RRows [1] None); mk_ps [0] [] (RRows [2] None)] = false /\
+  good_script MSession [mk_ps [0] [FErr 1 DNext] (RRows [1] None)] = false.
+Proof. repeat split; vm_compute; reflexivity. Qed.
 
 Print Assumptions C07_rows.
 Print Assumptions C07_rows_safety.
 Print Assumptions C07_ends.
 Print Assumptions C07_good_script_answers.
+Print Assumptions C07_stream.
 Print Assumptions C07_error_after_prefix.
+Print Assumptions C07_fail_point_is_expected.
+Print Assumptions C07_good_is_expected.
+Print Assumptions C07_ignore_refuted.
 Print Assumptions C07_states.
 Print Assumptions C07_no_dup_under_retry.
 Print Assumptions C07_early_drop.
